@@ -418,7 +418,24 @@ def r_eof_flag(ctx):
             rep.oblige(kind == "pop", "CLOSE|unknown|pop", rn.span, "%s: unknown-size masters are not closed one at a time from the top" % where)
             rep.oblige(_in_loop(rn, cb), "CLOSE|unknown|loop", rn.span,
                        "%s: only one unknown-size master can be closed per incoming element (the closing pop is not in a loop)" % where)
-            rep.oblige(any(rn.edge_dominates(e, cb) for e in ended_true), "CLOSE|unknown|decided-by-is_ended_by", rn.span,
+            decided = any(rn.edge_dominates(e, cb) for e in ended_true)
+            if not decided:
+                # deciding pass + acting pass: a scan of the stack whose predicate asks is_ended_by() yields the depth to keep, and the pop
+                # loop runs while the stack is deeper than that
+                scan_asks = any(c2 is not None and strip_generics(c2["path"]).split("::")[-1] == "is_ended_by"
+                                for cl in prog.closures_of(rn.path) for _, _, c2 in cl.calls())
+                if scan_asks:
+                    SCANS = {"call:std::iter::Iterator::rposition", "call:std::iter::Iterator::position", "call:std::iter::Iterator::take_while",
+                             "call:std::iter::Iterator::skip_while"}
+                    for b2 in sorted(rn.live_blocks()):
+                        tt2 = rn.blocks[b2]["term"]
+                        if tt2["k"] != "switch" or tt2["discr"].get("k") not in ("copy", "move") or tt2["discr"]["place"]["proj"]:
+                            continue
+                        src = local_sources(rn, tt2["discr"]["place"]["local"])
+                        if "call:std::vec::Vec::len" in src and "field:tag_stack" in src and (src & SCANS):
+                            if cb in rn.reachable_from(b2) and b2 in rn.reachable_from(cb):
+                                decided = True
+            rep.oblige(decided, "CLOSE|unknown|decided-by-is_ended_by", rn.span,
                        "%s: the closing pop is not selected by is_ended_by() on the incoming element" % where)
         elif rn.edge_dominates(none_e, cb):
             n_eof += 1
